@@ -549,7 +549,7 @@ void registerEquivEngine()
     e.generate = generate;
     e.execute = execute;
     e.simplify = simplify;
-    e.timeoutS = 60;
+    e.timeoutS = 12;
     e.crashProperty = "C18";
     registerEngine(e);
 }
